@@ -221,7 +221,8 @@ Proof.
   destruct (0 <? sc_flow_level s1)%N; [apply bwp_ret; apply HQ; [exact H|reflexivity]|].
   match goal with |- context [let '(ind, inds) := ?X in _] => destruct X as [ind inds] end.
   destruct (ind <? Z.of_N cl)%Z.
-  - apply bwp_bind. apply bwp_put_br; [apply BR_set_indent; exact H|reflexivity|]. intros u1 u2 HU RU.
+  - destruct (BLOCK_NESTING_MAX <=? N.of_nat (length inds))%N; [unfold bwp; split; [reflexivity|exact (br_mark H)]|].
+    apply bwp_bind. apply bwp_put_br; [apply BR_set_indent; exact H|reflexivity|]. intros u1 u2 HU RU.
     destruct number as [n|].
     + destruct (n <? sc_tokens_parsed s1)%N; [apply bwp_panic_l|].
       apply bwp_insert_token; [exact HU|apply TR_empty; exact HM|]. intros t1 t2 HT RT. apply HQ; [exact HT|congruence].
